@@ -123,6 +123,33 @@ func init() {
 					}
 				}
 			}
+			// the architecture stated in the override block of the format; a conventional name longer than a file
+			// name may be (nothing may be written under another name)
+			for _, f := range Formats {
+				for _, tg := range []string{"file", "dir", "empty"} {
+					for _, wp := range []bool{true, false} {
+						c := baseMeta()
+						c.Release, c.FormatArch, c.ArchInOverride = "2", "customarch", true
+						if !yield(C15Case{Part: "cli", Format: f, Cfg: c, Target: tg, WithP: wp}) {
+							return
+						}
+						for _, n := range []int{180, 236, 260} {
+							c := baseMeta()
+							c.Release, c.Metadata = "2", strings.Repeat("m", n)
+							if !yield(C15Case{Part: "cli", Format: f, Cfg: c, Target: tg, WithP: wp}) {
+								return
+							}
+						}
+					}
+				}
+				for _, arch := range []string{"customarch", "arm7"} {
+					c := baseMeta()
+					c.Release, c.FormatArch, c.ArchInOverride = "2", arch, true
+					if !yield(C15Case{Part: "name", Format: f, Cfg: c}) {
+						return
+					}
+				}
+			}
 			// the target path already holds a larger / a smaller file
 			for _, f := range Formats {
 				for _, tg := range []string{"file", "dir", "empty"} {
@@ -422,6 +449,9 @@ func checkC15(env *engine.Env, ci any) engine.Outcome {
 	case "nested-missing-dir":
 		target = filepath.Join(work, "missing", "x"+extOf[f])
 		wantPath, wantFail = target, true
+	}
+	if (c.Target == "dir" || c.Target == "empty") && len(conv) > 255 {
+		wantFail = true // no file can carry the conventional name; nothing is written under another one
 	}
 	args := []string{"package", "-f", cfgPath}
 	if c.Elsewhere {
